@@ -6,7 +6,7 @@ use http::header::{HeaderMap, HeaderValue};
 use http_serve::Entity;
 use std::os::unix::fs::{MetadataExt, OpenOptionsExt};
 use std::path::Path;
-use std::sync::Arc;
+use std::sync::{Arc, Mutex};
 use std::task::{Context, Poll};
 use std::time::{Duration, UNIX_EPOCH};
 
@@ -135,6 +135,55 @@ fn poll_interleaved(rt: &tokio::runtime::Runtime, crf: &Arc<Crf>, ranges: &[(u64
         .await
         .unwrap()
     })
+}
+
+/// Streams of ONE entity read truly in parallel: `threads` OS threads (each with its own small
+/// runtime, so that the reads really overlap), each draining `rounds` ranges of at least three
+/// reads. Every stream must deliver exactly its own range whatever the others do.
+fn parallel_streams(crf: &Arc<Crf>, size: u64, threads: usize, rounds: usize) -> Result<(), String> {
+    let errors: Arc<Mutex<Vec<String>>> = Default::default();
+    let mut hs = vec![];
+    for t in 0..threads {
+        let crf = crf.clone();
+        let errors = errors.clone();
+        hs.push(std::thread::spawn(move || {
+            let rt = tokio::runtime::Builder::new_multi_thread().worker_threads(1).enable_all().build().unwrap();
+            for r in 0..rounds {
+                let a = ((t * 7919 + r * 104_729) as u64) % (size / 2);
+                let b = (a + 150_000 + (r as u64 % 3) * 17).min(size);
+                let crf = crf.clone();
+                let res: Result<(), String> = rt.block_on(async move {
+                    tokio::spawn(async move {
+                        let waker = noop_waker();
+                        let mut cx = Context::from_waker(&waker);
+                        let mut s = crf.get_range(a..b);
+                        let mut got = vec![];
+                        for _ in 0..16 {
+                            match s.as_mut().poll_next(&mut cx) {
+                                Poll::Ready(Some(Ok(d))) => got.extend_from_slice(&d),
+                                Poll::Ready(Some(Err(e))) => return Err(format!("{}..{}: {}", a, b, e)),
+                                Poll::Ready(None) => break,
+                                Poll::Pending => return Err("pending".into()),
+                            }
+                        }
+                        std::mem::forget(s);
+                        if got == content(a..b) { Ok(()) } else { Err(format!("{}..{}: bytes of another position", a, b)) }
+                    })
+                    .await
+                    .unwrap_or_else(|_| Err("panic".into()))
+                });
+                if let Err(e) = res {
+                    errors.lock().unwrap().push(e);
+                    return;
+                }
+            }
+        }));
+    }
+    for h in hs {
+        let _ = h.join();
+    }
+    let e = errors.lock().unwrap();
+    if e.is_empty() { Ok(()) } else { Err(format!("{} of {} threads: {}", e.len(), threads, e[0])) }
 }
 
 fn show_fouts(o: &[FOut]) -> String {
@@ -312,6 +361,17 @@ pub fn c18(em: &mut Emit, thorough: bool, _seed: u64) {
                 );
             }
         }
+        // --- streams of one entity read in parallel on several threads
+        if size >= 200_000 {
+            let crf = Arc::new(Crf::new(std::fs::File::open(&path).unwrap(), HeaderMap::new()).unwrap());
+            let (threads, rounds) = if thorough { (12, 200) } else { (8, 60) };
+            let r = parallel_streams(&crf, size, threads, rounds);
+            em.pred_only(
+                &format!("file of {} bytes: {} threads each draining {} ranges of one entity in parallel", size, threads, rounds),
+                &match r { Ok(()) => "ok".to_string(), Err(e) => format!("FAIL:{}", e) },
+                "parallel",
+            );
+        }
         // --- ETag / metadata
         let f1 = Crf::new(std::fs::File::open(&path).unwrap(), HeaderMap::new()).unwrap();
         let f2 = Crf::new(std::fs::File::open(&path).unwrap(), HeaderMap::new()).unwrap();
@@ -380,7 +440,13 @@ pub fn c18(em: &mut Emit, thorough: bool, _seed: u64) {
         // after the epoch, and the entity is served
         for (what, back) in [("1ns", Duration::new(0, 1)), ("0.3s", Duration::new(0, 300_000_000)),
                              ("1s", Duration::new(1, 0)), ("10y", Duration::new(315_576_000, 7))] {
-            f.set_modified(UNIX_EPOCH - back).unwrap();
+            // (a file system that cannot store such a time: nothing to check)
+            if f.set_modified(UNIX_EPOCH - back).is_err()
+                || std::fs::metadata(&path).unwrap().modified().map_or(true, |t| t >= UNIX_EPOCH)
+            {
+                em.note("c18", "this file system does not store modification times before 1970; cases skipped");
+                continue;
+            }
             let g = Crf::new(std::fs::File::open(&path).unwrap(), HeaderMap::new()).unwrap();
             let m = std::fs::metadata(&path).unwrap();
             let r = std::panic::catch_unwind(std::panic::AssertUnwindSafe(|| g.etag().unwrap().as_bytes().to_vec()));
@@ -479,12 +545,95 @@ pub fn c18(em: &mut Emit, thorough: bool, _seed: u64) {
     serve_over_files(em);
 }
 
+/// One file entity shared by several responses (`serve` takes its entity by value).
+#[derive(Clone)]
+struct SharedFile(Arc<Crf>);
+
+impl Entity for SharedFile {
+    type Error = BoxError;
+    type Data = Bytes;
+    fn len(&self) -> u64 {
+        self.0.len()
+    }
+    fn get_range(
+        &self,
+        range: std::ops::Range<u64>,
+    ) -> std::pin::Pin<Box<dyn futures_core::Stream<Item = Result<Bytes, BoxError>> + Send + Sync>> {
+        self.0.get_range(range)
+    }
+    fn add_headers(&self, h: &mut HeaderMap) {
+        self.0.add_headers(h)
+    }
+    fn etag(&self) -> Option<HeaderValue> {
+        self.0.etag()
+    }
+    fn last_modified(&self) -> Option<std::time::SystemTime> {
+        self.0.last_modified()
+    }
+}
+
 /// `serve` over real `ChunkedReadFile` entities with Range headers (also with the file truncated
 /// after the response head => an aborted body): the response head against the model, the body
 /// against the file. Part of C18's suite and, for the bytes-versus-headers clauses, of C02's.
 pub fn serve_over_files(em: &mut Emit) {
     let rt = rt();
     let tmp = tempfile::tempdir().unwrap();
+    // --- single-range responses over ONE entity served in parallel on several threads
+    {
+        let size = 400_001u64;
+        let path = tmp.path().join("parallel");
+        write_file(&path, size);
+        let crf = SharedFile(Arc::new(Crf::new(std::fs::File::open(&path).unwrap(), HeaderMap::new()).unwrap()));
+        let errors: Arc<Mutex<Vec<String>>> = Default::default();
+        let mut hs = vec![];
+        for t in 0..8u64 {
+            let crf = crf.clone();
+            let errors = errors.clone();
+            hs.push(std::thread::spawn(move || {
+                let rt = tokio::runtime::Builder::new_multi_thread().worker_threads(1).enable_all().build().unwrap();
+                for r in 0..40u64 {
+                    let a = (t * 7919 + r * 104_729) % (size / 2);
+                    let b = (a + 150_000 + r % 3).min(size);
+                    let ent = crf.clone();
+                    let res: Result<(), String> = rt.block_on(async move {
+                        tokio::spawn(async move {
+                            let req = http::Request::get("/")
+                                .header("range", format!("bytes={}-{}", a, b - 1))
+                                .body(())
+                                .unwrap();
+                            let resp = http_serve::serve(ent, &req);
+                            let cr = resp.headers().get("content-range").map(|v| v.as_bytes().to_vec());
+                            if resp.status() != 206 || cr != Some(format!("bytes {}-{}/{}", a, b - 1, size).into_bytes()) {
+                                return Err(format!("{}..{}: status {} content-range {:?}", a, b, resp.status(), cr));
+                            }
+                            let recs = drive_to_end(resp.into_body(), 16);
+                            let body: Vec<u8> = recs.iter().filter_map(|r| if let Out::Data(d) = &r.out { Some(d.clone()) } else { None }).flatten().collect();
+                            if matches!(recs.last().map(|r| &r.out), Some(Out::End)) && body == content(a..b) {
+                                Ok(())
+                            } else {
+                                Err(format!("{}..{}: body is not the file range", a, b))
+                            }
+                        })
+                        .await
+                        .unwrap_or_else(|_| Err("panic".into()))
+                    });
+                    if let Err(e) = res {
+                        errors.lock().unwrap().push(e);
+                        return;
+                    }
+                }
+            }));
+        }
+        for h in hs {
+            let _ = h.join();
+        }
+        let e = errors.lock().unwrap();
+        em.pred_only(
+            "file of 400001 bytes: 8 threads each serving 40 single ranges of one entity in parallel",
+            &if e.is_empty() { "ok".to_string() } else { format!("FAIL:{} of 8 threads: {}", e.len(), e[0]) },
+            "parallel-serve",
+        );
+    }
     for &size in &[65537u64, 200001] {
         let path = tmp.path().join(format!("f{}", size));
         for (range, a, b) in [
